@@ -243,6 +243,8 @@ impl Database {
         let recovery_available = memory_budget.available(Pool::Recovery);
 
         let estimate = Self::estimate_recovery_cost(&wal_dir)?;
+        #[cfg(kahflane_turdb_verif)]
+        let recovery_available = if crate::verif_hooks::force_degraded() { 0 } else { recovery_available };
 
         let (frames_recovered, mode) = if estimate.frame_count > 0 {
 
@@ -342,6 +344,8 @@ impl Database {
             .wrap_err_with(|| format!("failed to create metadata file at {:?}", meta_path))?;
         file.write_all(&page)
             .wrap_err("failed to write database header")?;
+        #[cfg(kahflane_turdb_verif)]
+        crate::verif_hooks::io_event("meta_create", &meta_path.to_string_lossy(), 0, 0);
 
         let wal_dir = path.join("wal");
 
@@ -680,7 +684,11 @@ impl Database {
             .wrap_err("failed to seek to start of metadata file")?;
         file.write_all(&page)
             .wrap_err("failed to write metadata header")?;
+        #[cfg(kahflane_turdb_verif)]
+        crate::verif_hooks::io_event("meta_write", &meta_path.to_string_lossy(), 0, 0);
         file.sync_all().wrap_err("failed to sync metadata file")?;
+        #[cfg(kahflane_turdb_verif)]
+        crate::verif_hooks::io_event("meta_sync", &meta_path.to_string_lossy(), 0, 0);
 
         Ok(())
     }
